@@ -234,6 +234,8 @@ Returns:
         raw = cost
         if ExtraArgs is None: ExtraArgs = ()
         self._fcalls, cost = wrap_function(cost, ExtraArgs, evalmon, start=self._fcalls[0])
+        if self._reducer: # reduce the cost, then apply bounds and penalty
+            cost = reduced(self._reducer, arraylike=True)(cost)
         if self._useStrictRange:
             indx = list(self.popEnergy).index(self.bestEnergy)
             ngen = self.generations #XXX: no random if generations=0 ?
@@ -241,9 +243,6 @@ Returns:
                 self.population[i] = self._clipGuessWithinRangeBoundary(self.population[i], (not ngen) or (i is indx))
             cost = wrap_bounds(cost, self._strictMin, self._strictMax) #XXX: remove?
         cost = wrap_penalty(cost, self._penalty)
-        if self._reducer:
-           #cost = reduced(*self._reducer)(cost) # was self._reducer = (f,bool)
-            cost = reduced(self._reducer, arraylike=True)(cost)
         # hold on to the 'wrapped' and 'raw' cost function
         self._cost = (cost, raw, ExtraArgs)
         self._live = True
@@ -483,6 +482,8 @@ Returns:
             evalmon = Null()
         else: evalmon = self._evalmon
         self._fcalls, cost = wrap_function(cost, ExtraArgs, evalmon, start=self._fcalls[0])
+        if self._reducer: # reduce the cost, then apply bounds and penalty
+            cost = reduced(self._reducer, arraylike=True)(cost)
         if self._useStrictRange:
             indx = list(self.popEnergy).index(self.bestEnergy)
             ngen = self.generations #XXX: no random if generations=0 ?
@@ -490,9 +491,6 @@ Returns:
                 self.population[i] = self._clipGuessWithinRangeBoundary(self.population[i], (not ngen) or (i is indx))
             cost = wrap_bounds(cost, self._strictMin, self._strictMax) #XXX: remove?
         cost = wrap_penalty(cost, self._penalty)
-        if self._reducer:
-           #cost = reduced(*self._reducer)(cost) # was self._reducer = (f,bool)
-            cost = reduced(self._reducer, arraylike=True)(cost)
         # hold on to the 'wrapped' and 'raw' cost function
         self._cost = (cost, raw, ExtraArgs)
         self._live = True
